@@ -1371,6 +1371,9 @@ class TermCanvas(Canvas):
             self.widget.respond(f"{ESC}[0n")
         elif mode == 6:
             x, y = self.term_cursor
+            if self.modes.constrain_scrolling:
+                # in origin mode lines are numbered from the top margin, as for cursor addressing
+                y -= self.scrollregion_start
             self.widget.respond(ESC + f"[{y + 1:d};{x + 1:d}R")
 
     def csi_erase_line(self, mode: Literal[0, 1, 2]) -> None:
